@@ -1,11 +1,13 @@
 SPECIFICATION Spec
 CONSTANTS
   MaxNodes = 6
-  MinEmit = 4
+  MinEmit = 3
   Depths = {99, 0, 1, 2, 3}
   Devs = {1, 2}
   RootMode = "any"
   MaxRoots = 2
   OptMode = "full"
   ExactSize = 1
+  NeedDev2 = FALSE
+  OptSample = 20
 INVARIANTS ModelOK Emitted
